@@ -1,18 +1,30 @@
 #!/bin/bash
 # Confirm a seeded change independently: in a fresh scratch worktree of /repo HEAD
 #  (1) the demonstration passes without the patch, (2) the patch applies, the 74 lib tests still pass,
-#  (3) the demonstration fails with the patch. usage: confirm_seed.sh <dir with patch.diff + seeded_demo.rs>
-D="$1"; W=/tmp/confirm/$(basename "$D")-$$
+#  (3) the demonstration fails with the patch.
+# usage: confirm_seed.sh <dir with patch.diff + (seeded_demo.rs | demo.diff adding a unit test to src/tests.rs)>
+D="$(realpath "$1")"; W=/tmp/confirm/$(basename "$(dirname "$D")")-$(basename "$D")-$$
 mkdir -p /tmp/confirm; git -C /repo worktree add -q --detach "$W" HEAD || exit 2
-export CARGO_NET_OFFLINE=true CARGO_TARGET_DIR=/tmp/confirm/target${DEMO_RUSTFLAGS:+-flags}
+export CARGO_NET_OFFLINE=true CARGO_TARGET_DIR=/tmp/confirm/target${DEMO_RUSTFLAGS:+-flags}${CONFIRM_LANE:+-$CONFIRM_LANE}
 [ -n "${DEMO_RUSTFLAGS:-}" ] && export RUSTFLAGS="$DEMO_RUSTFLAGS"
-cp "$D/seeded_demo.rs" "$W/tests/seeded_demo.rs"
 cd "$W"
-if cargo test --offline --test seeded_demo >"$W/demo0.log" 2>&1; then a=pass; else a=FAIL; fi
-if git apply "$D/patch.diff" 2>"$W/apply.log"; then ap=ok; else ap=NO; fi
-if cargo test --offline --lib >"$W/lib.log" 2>&1; then l="pass($(grep -c ' ... ok' "$W/lib.log"))"; else l=FAIL; fi
-if cargo test --offline --test seeded_demo >"$W/demo1.log" 2>&1; then b=pass; else b=FAIL; fi
-echo "$(basename "$(dirname "$D")"): demo without patch=$a ; patch applies=$ap ; lib tests with patch=$l ; demo with patch=$b"
-[ "$a" = pass ] && [ "$ap" = ok ] && [[ "$l" == pass* ]] && [ "$b" = FAIL ]; ok=$?
+if [ -f "$D/seeded_demo.rs" ]; then
+    cp "$D/seeded_demo.rs" "$W/tests/seeded_demo.rs"
+    if cargo test --offline --test seeded_demo >"$W/demo0.log" 2>&1; then a=pass; else a=FAIL; fi
+    if git apply "$D/patch.diff" 2>"$W/apply.log"; then ap=ok; else ap=NO; fi
+    if cargo test --offline --lib >"$W/lib.log" 2>&1; then l="pass($(grep -c ' ... ok' "$W/lib.log"))"; else l=FAIL; fi
+    if cargo test --offline --test seeded_demo >"$W/demo1.log" 2>&1; then b=pass; else b=FAIL; fi
+else
+    # demonstration is a unit test added to src/tests.rs
+    if git apply "$D/demo.diff" 2>"$W/apply0.log" && cargo test --offline --lib >"$W/demo0.log" 2>&1; then a="pass($(grep -c ' ... ok' "$W/demo0.log"))"; else a=FAIL; fi
+    git checkout -q -- . ; git clean -fdq
+    if git apply "$D/patch.diff" 2>"$W/apply.log"; then ap=ok; else ap=NO; fi
+    if cargo test --offline --lib >"$W/lib.log" 2>&1; then l="pass($(grep -c ' ... ok' "$W/lib.log"))"; else l=FAIL; fi
+    git apply "$D/demo.diff" 2>>"$W/apply.log" || ap="$ap(demo.diff does not apply on top)"
+    if cargo test --offline --lib >"$W/demo1.log" 2>&1; then b=pass; else b="FAIL($(grep -c ' ... FAILED' "$W/demo1.log") failed, $(grep -c ' ... ok' "$W/demo1.log") ok)"; fi
+    a=${a/pass*/pass}
+fi
+echo "$(basename "$(dirname "$D")")/$(basename "$D"): demo without patch=$a ; patch applies=$ap ; lib tests with patch=$l ; demo with patch=$b"
+[ "$a" = pass ] && [ "$ap" = ok ] && [[ "$l" == "pass(74)" ]] && [[ "$b" == FAIL* ]]; ok=$?
 cd /; git -C /repo worktree remove --force "$W"
 exit $ok
